@@ -248,7 +248,7 @@ def run(ck: Check):
                     jsmeta.append((d, rp))
             else:
                 if p1["kind"] != "ok" or p1["obs"] is None:
-                    ck.failure("json-unknown-key-not-ignored", f"fail_on_unknown_properties=False, unknown key {d['key']} at {d['path']}: "
+                    ck.failure("json-unknown-key-not-ignored" + ("-polymorphic" if d.get("polymorphic") and p1.get("exc") == "ParserError" else ""), f"fail_on_unknown_properties=False, unknown key {d['key']} at {d['path']}: "
                                                                f"{p1['exc']} {p1['msg']}", rp)
                 else:
                     jpairs.append(f"({p1['obs']}, {p0['obs']})")
